@@ -649,6 +649,15 @@ func FuncName(pkg *types.Package, name string, recv *types.Var, org bool) string
 				tName = named.Obj().Name()
 			} else {
 				tName = abi.NamedName(named)
+				// Wrappers ($bound, $thunk, promoted methods) are named after the
+				// package being compiled, not after the package of the receiver
+				// type: keep the scope indices of a function-local receiver type
+				// and qualify a receiver type of another package, otherwise
+				// same-named types share one wrapper symbol.
+				tName += abi.LocalScopeIndices(named.Obj())
+				if tpkg := named.Obj().Pkg(); tpkg != nil && pkg != nil && PathOf(tpkg) != PathOf(pkg) {
+					tName = PathOf(tpkg) + "." + tName
+				}
 			}
 			if ptr {
 				tName = "(*" + tName + ")"
